@@ -126,6 +126,47 @@ func (ck *Check) liftedEntails(fn *ssa.Function, in ssa.Instruction, mk func(ctx
 	return try([]liftFrame{{fn: fn}})
 }
 
+// sizeFromLengths: v is built from non-negative constants and lengths of live collections with + and
+// × (merges included); a loop-carried value only as a running sum. Such a size is never negative and
+// is bounded by a polynomial in quantities the process already holds.
+func (ck *Check) sizeFromLengths(v ssa.Value, seen map[ssa.Value]bool, underMul bool, depth int) bool {
+	if depth > 8 {
+		return false
+	}
+	switch x := v.(type) {
+	case *ssa.Const:
+		return x.Value != nil && x.Value.Kind() == constant.Int && constant.Sign(x.Value) >= 0
+	case *ssa.Convert:
+		return isInteger(x.Type()) && isInteger(x.X.Type()) && ck.sizeFromLengths(x.X, seen, underMul, depth+1)
+	case *ssa.Call:
+		if b, ok := x.Common().Value.(*ssa.Builtin); ok && (b.Name() == "len" || b.Name() == "cap") {
+			return true
+		}
+		return false
+	case *ssa.BinOp:
+		switch x.Op {
+		case token.ADD:
+			return ck.sizeFromLengths(x.X, seen, underMul, depth+1) && ck.sizeFromLengths(x.Y, seen, underMul, depth+1)
+		case token.MUL:
+			return ck.sizeFromLengths(x.X, seen, true, depth+1) && ck.sizeFromLengths(x.Y, seen, true, depth+1)
+		}
+		return false
+	case *ssa.Phi:
+		if seen[v] {
+			return !underMul // a running sum, not a running product
+		}
+		seen[v] = true
+		defer delete(seen, v)
+		for _, e := range x.Edges {
+			if !ck.sizeFromLengths(e, seen, underMul, depth+1) {
+				return false
+			}
+		}
+		return true
+	}
+	return false
+}
+
 func (ck *Check) allocationBounds(rule string, fns []*ssa.Function) {
 	n, nonConst := 0, 0
 	for _, fn := range fns {
@@ -148,6 +189,10 @@ func (ck *Check) allocationBounds(rule string, fns []*ssa.Function) {
 					nonConst++
 					key := fmt.Sprintf("%s/make#%d/%s", funcID(fn), ord, what)
 					szv := sz
+					if ck.sizeFromLengths(sz, map[ssa.Value]bool{}, false, 0) {
+						ck.ok(rule, key, ck.P.instrPos(ms), funcID(fn), "make: 0 ≤ "+what+" ≤ bound over held quantities", ck.P.NewCtx(fn).Term(sz).String()+" (sums and products of lengths of live collections and non-negative constants)")
+						continue
+					}
 					okLow, whyLow, d1 := ck.liftedEntails(fn, ms, func(ctx *Ctx) []LinFact {
 						return []LinFact{{A: zeroTerm(szv.Type()), B: ctx.Term(szv), K: 0, Text: "0 ≤ " + what}}
 					})
